@@ -379,8 +379,11 @@ def d2_keys(ctx, idx):
                 r.undecided('ListGrader.validate_submission: length test', 'test not recognised: %s' % short(last), lib.loc(vsf, p.leaf.stmt))
             r.check(nf.exc_class_name(p.leaf.expr) == 'ConfigError', 'ListGrader.validate_submission: error class', 'ConfigError',
                     'raises %s' % nf.exc_class_name(p.leaf.expr), lib.loc(vsf, p.leaf.stmt))
-        if n_checks < 2:
-            r.violation('ListGrader.validate_submission', 'expected two length checks (grouping / answers), found %d' % n_checks, vsf.loc)
+        if n_checks == 0:
+            r.violation('ListGrader.validate_submission', 'no refusal at all: the submission length is never validated', vsf.loc)
+        elif n_checks < 2:
+            r.undecided('ListGrader.validate_submission', 'expected two length checks (grouping / answers), recognised %d raise path(s): '
+                        'the refusals may have been merged into one' % n_checks, vsf.loc)
         # perform_check returns the long form built from ungroupify_list
         rets = lib.returns_of(pc.node)
         for ret in rets:
@@ -498,6 +501,20 @@ def d3_ok_follows_grade(ctx, idx):
                                         verdict = ('undecided', 'conditional repair `if %s` relies on consolidate_results never returning an ok=True '
                                                    'element, whose shape is not recognised' % unparse(it.test))
                                         break
+                    if verdict is None:
+                        # a store of ok that follows on every path and is computed from the new grade by something this rule cannot
+                        # read (a callable held in a local object, a method of a per-call accumulator): not an absence
+                        for o, _ in cands:
+                            ov = o.value if isinstance(o, ast.Assign) else None
+                            if ov is None or not isinstance(ov, ast.Call) or nf.callee_name(ov) == OK_FUNC:
+                                continue
+                            uses_new = any(nf.match("%s['grade_decimal']" % base, a) is not None or
+                                           (value is not None and isinstance(a, ast.Name) and isinstance(value, ast.Name) and a.id == value.id)
+                                           for a in ov.args)
+                            if uses_new and cfg.must_pass(sn, cfg.nodes_of(o), exits='return'):
+                                verdict = ('undecided', "%s['ok'] is recomputed from the new grade by `%s`, which is not recognisably %s"
+                                           % (base, short(ov), OK_FUNC))
+                                break
                     if verdict and verdict[0] == 'undecided':
                         r.undecided(construct, verdict[1], where)
                     elif verdict:
